@@ -492,7 +492,16 @@ fn c18_judge(case: &Case, run: &Run, an: &Analysis, stats: &mut Stats) -> CheckR
   if nontrivial && disarmed_later { stats.class("errors_without_change_then_disarmed"); }
   if nontrivial { stats.nontrivial(fingerprint(case)); sample(case, stats); }
   if let Some(t) = an.has(&["panic-internal", "panic-diagnosed"]) { return Err(Failure::new(format!("[c18-abort] {}", t.msg))); }
-  fail_on(an, &["missing-exec", "bu-missing-schedule", "bu-leftover", "I2-verdict", "bu-verdict", "incomplete-validation", "c01-output", "c01-state"])
+  fail_on(an, &["missing-exec", "bu-missing-schedule", "bu-leftover", "I2-verdict", "bu-verdict", "incomplete-validation"])?;
+  // From-scratch equality is demanded for top-down sessions only: a `require` in the same session as a bottom-up
+  // build can return a value left stale by an earlier partial top-down build (finding C03-F1, judged by C03), which
+  // has nothing to do with checker errors.
+  for f in &an.findings {
+    if f.tag != "c01-output" && f.tag != "c01-state" { continue; }
+    let has_bu = run.sessions[f.session].builds.iter().any(|b| matches!(b.kind, BuildKind::BottomUp(_)));
+    if !has_bu { return Err(Failure::new(format!("[{}] {}", f.tag, f.msg))); }
+  }
+  Ok(())
 }
 
 fn faultable_pairs(p: &Program) -> Vec<(ResId, RChk)> {
@@ -955,7 +964,7 @@ pub fn run(prop: &str, tier: Tier, seed: u64) -> i32 {
   if let Some(extra) = spec.extra { extra(spec, tier, seed, &known, &mut report); }
   // Coverage-guided campaign (thorough tier) for the properties whose cases are plain program x history values.
   if tier == Tier::Thorough && report.violations.is_empty() && ["C01", "C02", "C03", "C04", "C08", "C09", "C20"].contains(&prop) && std::env::var("PV_NO_FUZZ").is_err() {
-    crate::fuzz::campaign(prop, 60000, 16, &mut report);
+    crate::fuzz::campaign(prop, 300000, 16, &mut report);
   }
   report.assumptions = spec.assumptions.iter().map(|s| s.to_string()).collect();
   report.finish()
